@@ -135,6 +135,7 @@ def check(ctx):
     ctx.require_min('C05.D', 2)
     ctx.require_min('C05.B', 6)
     ctx.require_min('C05.M', 4)
+    witness.check_static_unit(ctx, 'C05.V', os.path.join(extract.VERIF, 'witness', 's_meta.cpp'), 'argument decay and callable detection for predicates', tag='C05')
     witness.check_static_unit(ctx, 'C05.V', os.path.join(extract.VERIF, 'witness', 's_select.cpp'), 'QueuedEvent stores decayed copies; index sequence order', tag='C05')
 
 
